@@ -322,10 +322,10 @@ def load_known_findings():
     return res
 
 
-def prepare(workdir, canary=False, skip_body=(), force_external=(), drop_statics=()):
+def prepare(workdir, canary=False, skip_body=(), force_external=(), drop_statics=(), drop_contract=()):
     os.makedirs(workdir, exist_ok=True)
     image, maps = gen.build_image(os.path.join(REPO, 'src'), canary=canary, skip_body=skip_body, force_external=force_external,
-                                  drop_statics=drop_statics)
+                                  drop_statics=drop_statics, drop_contract=drop_contract)
     name = 'canary' if canary else 'proof'
     d = os.path.join(workdir, name)
     os.makedirs(d, exist_ok=True)
@@ -369,9 +369,20 @@ def decide(props, a, seed, workdir, t0):
         cpath, cimage, cmaps = prepare(workdir, canary=True)
     except (gen.LostAnchor, rustscan.ScanError) as e:
         print('INCONCLUSIVE: generator: %s' % e)
+        rc = 2
         for p in props:
-            write_evidence(p, a.tier, seed, t0, None, inconclusive='generator: %s' % e)
-        return 2
+            # no image, no proof; a concrete failing input on the real crate is still a violation
+            fl = {'message': 'no crate image could be generated for this tree: %s' % e, 'rendered': '', 'fn': None, 'labels': [], 'lines': []}
+            w = None if os.environ.get('VF_NO_SEARCH') else witness.search(p, ['no-image'], fl, REPO)
+            if w and w.get('failing_input'):
+                path = witness.write_replay(p, ['search:' + w['failing_input'].get('case', '?')], fl, w, None,
+                                            note='no crate image could be generated, so nothing was proved; the bounded witness search on the real crate found this failing input')
+                print('VIOLATION property=%s replay=%s' % (p, path))
+                write_evidence(p, a.tier, seed, t0, None, violations=1, inconclusive=None, note=fl['message'])
+                rc = 1
+            else:
+                write_evidence(p, a.tier, seed, t0, None, inconclusive='generator: %s' % e)
+        return rc
     lookup = build_fnkey_lookup(image, maps)
     clookup = build_fnkey_lookup(cimage, cmaps)
     image_lines = image.split('\n')
@@ -412,6 +423,7 @@ def decide(props, a, seed, workdir, t0):
     skip_body = set()
     force_external = set()
     drop_statics = set()
+    drop_contract = set()
     rejected_msgs = {}
     for _round in range(6):
         fe = [f for f in fails if f['kind'] == 'frontend']
@@ -436,6 +448,11 @@ def decide(props, a, seed, workdir, t0):
                             break
                 k = lookup(ln)
                 rng = [r for r in maps['fn_ranges'] if r[0] <= ln <= r[1]]
+                if k and rng and ln <= min(r[3] for r in rng) and k not in drop_contract and maps['contracts'].get(k) and '::<' not in k \
+                        and (ln in maps['linemap'] or re.search(r'//\s*@vf\s*$', image_lines[ln - 1])):
+                    # the spliced CONTRACT of an inherent / free function is rejected (signature changed): drop it
+                    new_skip.add('#' + k)
+                    continue
                 if not k or not rng or ln <= min(r[3] for r in rng):
                     continue
                 c = maps['contracts'].get(k)
@@ -455,9 +472,12 @@ def decide(props, a, seed, workdir, t0):
                 force_external.add(k[1:])
             elif k.startswith('$'):
                 drop_statics.add(k[1:])
+            elif k.startswith('#'):
+                drop_contract.add(k[1:])
             else:
                 skip_body.add(k)
-        ppath, image, maps = prepare(workdir, canary=False, skip_body=skip_body, force_external=force_external, drop_statics=drop_statics)
+        ppath, image, maps = prepare(workdir, canary=False, skip_body=skip_body, force_external=force_external, drop_statics=drop_statics,
+                                     drop_contract=drop_contract)
         lookup = build_fnkey_lookup(image, maps)
         image_lines = image.split('\n')
         vr = run_verus(ppath, os.path.dirname(ppath), None, 8)
@@ -472,7 +492,11 @@ def decide(props, a, seed, workdir, t0):
         failing_fns = sorted({f['fn'] for f in fails if f['kind'] == 'verification' and f['fn'] and not f.get('unverified')})
         ths = kani_run.twin_harnesses(failing_fns)
         if ths:
-            tr = kani_run.run(ths, REPO, workdir, a.tier)
+            already = {h['name']: h for h in kr['harnesses'] if h.get('twin_of')}    # thorough tier ran them in stage 1
+            to_run = [h for h in ths if h['name'] not in already]
+            tr = kani_run.run(to_run, REPO, workdir, a.tier) if to_run else {'harnesses': []}
+            stage2 = list(tr['harnesses'])
+            tr = {'harnesses': [already[h['name']] for h in ths if h['name'] in already] + stage2}
             by_fn = {}
             for h in tr['harnesses']:
                 for k in h.get('twin_of', []):
@@ -482,7 +506,7 @@ def decide(props, a, seed, workdir, t0):
                 n = len([f for f in fails if f['fn'] == k and f['kind'] == 'verification'])
                 twin_notes.append('%s: %d Verus failure(s) discharged by the complete Kani twin(s) %s' % (k, n, ', '.join(h['name'] for h in by_fn[k])))
             fails = [f for f in fails if not (f['fn'] in discharged and f['kind'] == 'verification' and not f.get('unverified'))]
-            for h in tr['harnesses']:
+            for h in stage2:
                 h['props'] = []
                 kr['harnesses'].append(h)
             for k, hs in by_fn.items():
@@ -509,7 +533,7 @@ def decide(props, a, seed, workdir, t0):
         # the canary image must be degraded the same way as the proof image; the canary guards the vacuity of the
         # CONTRACTS (which do not depend on the tree), so if it still cannot be built it is skipped for this run
         try:
-            cpath, cimage, cmaps = prepare(workdir, canary=True, skip_body=skip_body, force_external=force_external, drop_statics=drop_statics)
+            cpath, cimage, cmaps = prepare(workdir, canary=True, skip_body=skip_body, force_external=force_external, drop_statics=drop_statics, drop_contract=drop_contract)
             clookup = build_fnkey_lookup(cimage, cmaps)
             cr = run_verus(cpath, os.path.dirname(cpath), None, 8)
         except (gen.LostAnchor, rustscan.ScanError):
@@ -541,8 +565,19 @@ def decide(props, a, seed, workdir, t0):
                 rc = 1
             else:
                 msg = frontend[0]['message'] if frontend else (vr['stderr_other'][:3] or ['verus produced no result'])
-                print('INCONCLUSIVE: property=%s image rejected by the Verus front end: %s' % (p, msg))
-                write_evidence(p, a.tier, seed, t0, None, inconclusive='front end: %s' % msg)
+                # no proof is possible for this tree; a concrete failing input on the real crate is still a violation
+                fl = {'message': 'image rejected by the Verus front end: %s' % (msg,), 'rendered': (frontend[0]['rendered'] if frontend else '')[-3000:],
+                      'fn': None, 'labels': [], 'lines': []}
+                w = None if os.environ.get('VF_NO_SEARCH') else witness.search(p, ['image-rejected'], fl, REPO)
+                if w and w.get('failing_input'):
+                    path = witness.write_replay(p, ['search:' + w['failing_input'].get('case', '?')], fl, w, vr,
+                                                note='the crate image was rejected by the Verus front end, so nothing was proved; the bounded witness search on the real crate found this failing input')
+                    print('VIOLATION property=%s replay=%s' % (p, path))
+                    write_evidence(p, a.tier, seed, t0, None, violations=1, inconclusive=None, note=fl['message'])
+                    rc = 1
+                else:
+                    print('INCONCLUSIVE: property=%s image rejected by the Verus front end: %s' % (p, msg))
+                    write_evidence(p, a.tier, seed, t0, None, inconclusive='front end: %s' % msg)
         if a.all or rc == 2:
             for f in frontend[:10]:
                 print('  frontend: ' + f['rendered'].split('\n')[0][:200])
@@ -637,6 +672,11 @@ def decide_one(p, a, seed, t0, vr, cr, seeds, kr, fails, maps, image, lookup, co
             continue
         if role == 'primary' and f.get('unverified'):
             role = 'secondary'
+        if role == 'primary' and f['fn'] in NEW_FN_CALLERS:
+            # a failure inside a function that is new in this tree (no contract): it may rest on a precondition every
+            # caller establishes (extracted helper), so it is undecided until a concrete witness is found
+            role = 'secondary'
+            f['degraded'] = ['function is new in this tree and carries no contract']
         if role == 'primary' and f['fn'] in maps.get('lost_anchors', {}):
             # the proof of this function lost an anchor: a failure here is undecided until a concrete witness is found
             role = 'secondary'
